@@ -15,7 +15,7 @@ import z3
 
 from . import extract
 from .core import Undecided, PathEnd, Infeasible, EngineError
-from .values import (Sym, SInt, SBool, SReal, SStr, SSet, SSeq, SObj, Opaque, Closure, BoundModel,
+from .values import (Sym, SInt, SBool, SReal, SFloat, FP64, SStr, SSet, SSeq, SObj, Opaque, Closure, BoundModel,
                      is_sym, contains_sym, wrap, term, StrSort)
 
 
@@ -314,6 +314,12 @@ class Interp:
                 last = name.split(".")[-1]
                 if isinstance(fn.__self__, dict) and last in ("get", "setdefault", "pop") and args and is_sym(args[0]) \
                         and not isinstance(args[0], SObj):
+                    if last == "get":
+                        d = fn.__self__
+                        for kk in list(d.keys()):
+                            if self.truth(self.compare(ast.Eq, kk, args[0])):
+                                return d[kk]
+                        return args[1] if len(args) > 1 else None
                     raise Undecided(f"dict.{last} with symbolic key")
                 if last in ("append", "extend", "insert", "pop", "get", "setdefault", "update",
                             "items", "keys", "values", "copy", "clear", "reverse", "add"):
@@ -476,6 +482,8 @@ class Interp:
             return self.ctx.branch(v.t != 0)
         if isinstance(v, SReal):
             return self.ctx.branch(v.t != 0)
+        if isinstance(v, SFloat):
+            return self.ctx.branch(z3.Not(z3.fpIsZero(v.t)))
         if isinstance(v, SStr):
             return self.ctx.branch(z3.Length(v.t) != 0)
         if isinstance(v, SSet):
@@ -545,7 +553,7 @@ class Interp:
         if isinstance(container, SStr) or (isinstance(container, str) and isinstance(item, SStr)):
             return wrap(z3.Contains(term(container), term(item)))
         if isinstance(container, (list, tuple, set, frozenset, dict)) or isinstance(container, type({}.keys())):
-            if not contains_sym(item) and not any(is_sym(x) for x in container):
+            if not contains_sym(item) and not any(contains_sym(x) for x in container):
                 try:
                     return item in container
                 except Exception as e:
@@ -1303,8 +1311,7 @@ class Interp:
             raise PyRaise(IndexError("list index out of range"))
         if isinstance(k, slice) and contains_sym((k.start, k.stop, k.step)):
             raise Undecided("symbolic slice of a concrete sequence")
-        if isinstance(c, dict) and ((is_sym(k) and not isinstance(k, SObj)) or
-                                    (not is_sym(k) and any(is_sym(x) and not isinstance(x, SObj) for x in c))):
+        if isinstance(c, dict) and _needs_scan(c, k):
             for kk in list(c.keys()):
                 r = self.compare(ast.Eq, kk, k)
                 if self.truth(r):
@@ -1328,8 +1335,7 @@ class Interp:
             return self.call(self._bind_class_attr(raw, c, cls), [k, v])
         if isinstance(c, Sym):
             raise Undecided(f"subscript store on {c!r}")
-        if (is_sym(k) and not isinstance(k, SObj)) or (isinstance(c, dict) and not is_sym(k)
-                                                        and any(is_sym(x) and not isinstance(x, SObj) for x in c)):
+        if (is_sym(k) and not isinstance(k, SObj)) or (isinstance(c, dict) and _needs_scan(c, k)):
             if not isinstance(c, dict):
                 raise Undecided("store with symbolic index")
             for kk in list(c.keys()):
@@ -1342,6 +1348,20 @@ class Interp:
             c[k] = v
         except Exception as e:
             raise PyRaise(e)
+
+
+def _symkey(k):
+    if isinstance(k, SObj):
+        return False
+    if isinstance(k, Sym):
+        return True
+    if isinstance(k, tuple):
+        return any(_symkey(x) for x in k)
+    return False
+
+
+def _needs_scan(c, k):
+    return _symkey(k) or any(_symkey(x) for x in c)
 
 
 def _static_getattr(cls, name):
@@ -1624,8 +1644,12 @@ def sym_compare(interp, op, a, b):
             return wrap(z3.And(z3.IsSubset(x.t, y.t), x.t != y.t))
         if op is ast.Gt:
             return wrap(z3.And(z3.IsSubset(y.t, x.t), x.t != y.t))
-    if isinstance(a, (SInt, SReal, int, float)) and isinstance(b, (SInt, SReal, int, float)):
+    if isinstance(a, (SInt, SReal, SBool, int, float)) and isinstance(b, (SInt, SReal, SBool, int, float)):
         x, y = term(a if not isinstance(a, bool) else int(a)), term(b if not isinstance(b, bool) else int(b))
+        if x.sort() == z3.BoolSort():
+            x = z3.If(x, 1, 0)
+        if y.sort() == z3.BoolSort():
+            y = z3.If(y, 1, 0)
         if x.sort() != y.sort():
             x = z3.ToReal(x) if x.sort() == z3.IntSort() else x
             y = z3.ToReal(y) if y.sort() == z3.IntSort() else y
@@ -1648,6 +1672,8 @@ def sym_eq(interp, a, b):
     """Python == on mixed values -> bool | SBool."""
     if a is b:
         return True
+    if not contains_sym(a) and not contains_sym(b):
+        return interp.native(operator.eq, [a, b], {})
     if isinstance(a, SObj) or isinstance(b, SObj):
         o = a if isinstance(a, SObj) else b
         cls = interp.class_of(o)
@@ -1668,6 +1694,8 @@ def sym_eq(interp, a, b):
         like = a if isinstance(a, SSet) else b
         x, y = to_sset(interp, a, like), to_sset(interp, b, like)
         return wrap(x.t == y.t)
+    if isinstance(a, SFloat) or isinstance(b, SFloat):
+        return _fp_eq(interp, a, b)
     scal = (SInt, SReal, SBool, int, float, bool)
     if isinstance(a, scal) and isinstance(b, scal):
         x = term(int(a) if isinstance(a, bool) and not isinstance(b, (SBool, bool)) else a)
@@ -1716,6 +1744,30 @@ def sym_eq(interp, a, b):
     raise Undecided(f"== on {a!r}, {b!r}")
 
 
+def _fp_eq(interp, a, b):
+    """Python == where at least one side is an IEEE double.  int/bool vs float compare exactly."""
+    def as_fp_or_int(v):
+        if isinstance(v, SFloat):
+            return "fp", v.t
+        if isinstance(v, float):
+            return "fp", z3.FPVal(v, FP64)
+        if isinstance(v, (bool, SBool)):
+            t = term(v)
+            return "int", z3.If(t, z3.IntVal(1), z3.IntVal(0))
+        if isinstance(v, (int, SInt)):
+            return "int", term(v)
+        return None, None
+    ka, ta = as_fp_or_int(a)
+    kb, tb = as_fp_or_int(b)
+    if ka is None or kb is None:
+        return False
+    if ka == "fp" and kb == "fp":
+        return wrap(z3.fpEQ(ta, tb))
+    f, i = (ta, tb) if ka == "fp" else (tb, ta)
+    finite = z3.Not(z3.Or(z3.fpIsNaN(f), z3.fpIsInf(f)))
+    return wrap(z3.And(finite, z3.fpToReal(f) == z3.ToReal(i)))
+
+
 # ---------------------------------------------------------------------------------------------
 # modelled builtins
 # ---------------------------------------------------------------------------------------------
@@ -1728,7 +1780,7 @@ def _m_isinstance(interp, v, cls):
     if isinstance(v, SObj):
         return issubclass(interp.class_of(v), cls)
     import collections.abc as cabc
-    table = {SInt: (int,), SBool: (bool, int), SReal: (float,), SStr: (str,), SSet: (set,),
+    table = {SInt: (int,), SBool: (bool, int), SReal: (float,), SFloat: (float,), SStr: (str,), SSet: (set,),
              SSeq: (list,), SDict: (dict,)}
     if isinstance(v, Opaque):
         interp.ctx.note(f"unmodelled-isinstance:{v.why}")
@@ -1965,7 +2017,7 @@ def _m_type(interp, v, *rest):
         return interp.native(type, [v] + list(rest), {})
     if isinstance(v, SObj):
         return interp.class_of(v)
-    table = {SInt: int, SBool: bool, SReal: float, SStr: str, SSet: set, SSeq: list}
+    table = {SInt: int, SBool: bool, SReal: float, SFloat: float, SStr: str, SSet: set, SSeq: list}
     if isinstance(v, Sym):
         if type(v) in table:
             return table[type(v)]
@@ -2009,7 +2061,23 @@ def _m_float(interp, v=0.0):
     return interp.native(float, [v], {})
 
 
+def _m_copysign(interp, x, y):
+    import math
+    if isinstance(y, SFloat):
+        mag = x if not isinstance(x, Sym) else None
+        if mag is None:
+            raise Undecided("copysign with symbolic magnitude")
+        neg = z3.fpIsNegative(y.t)
+        return SFloat(z3.If(neg, z3.FPVal(-abs(float(mag)), FP64), z3.FPVal(abs(float(mag)), FP64)))
+    if isinstance(x, Sym) or isinstance(y, Sym):
+        raise Undecided("copysign on symbolic non-IEEE value")
+    return interp.native(math.copysign, [x, y], {})
+
+
+import math as _math
+
 DEFAULT_MODELS = {
+    _math.copysign: _m_copysign,
     isinstance: _m_isinstance, len: _m_len, set: _m_set, list: _m_list, tuple: _m_tuple,
     reversed: _m_reversed, bool: _m_bool, int: _m_int, str: _m_str, range: _m_range,
     enumerate: _m_enumerate, zip: _m_zip, all: _m_all, any: _m_any, min: _m_minmax(True),
